@@ -70,14 +70,17 @@ type stressEnv struct {
 	ctx      context.Context
 	b        ctlog.LockBackend
 	base     int64
-	deadline time.Time
+	deadline time.Time // the phase ends here if at least minOps calls were made ...
+	hardStop time.Time // ... and here at the latest (slow disk: fsync under load)
+	minOps   int64
 	maxOps   int64
 	ops      atomic.Int64
 	unk      atomic.Int64
 }
 
 func (e *stressEnv) done() bool {
-	return e.ops.Load() >= e.maxOps || time.Now().After(e.deadline)
+	n, now := e.ops.Load(), time.Now()
+	return n >= e.maxOps || now.After(e.hardStop) || (n >= e.minOps && now.After(e.deadline))
 }
 
 func (e *stressEnv) fetch(s *stressID) (ctlog.LockedCheckpoint, string) {
@@ -424,7 +427,7 @@ func runStressPhase(seed int64, backend string, b ctlog.LockBackend, ph stressPh
 	}
 	ptag := backend + "." + ph.name
 	tSetup := time.Now()
-	e := &stressEnv{ctx: context.Background(), b: b, base: base, maxOps: ph.maxOps}
+	e := &stressEnv{ctx: context.Background(), b: b, base: base, maxOps: ph.maxOps, minOps: ph.maxOps / 20}
 	var ids []*stressID
 	mk := func(kind string, i int) *stressID {
 		tag := fmt.Sprintf("%s.%s%d", ptag, kind, i)
@@ -458,6 +461,7 @@ func runStressPhase(seed int64, backend string, b ctlog.LockBackend, ph stressPh
 		}
 	}
 	e.deadline = time.Now().Add(time.Duration(ph.ms) * time.Millisecond)
+	e.hardStop = time.Now().Add(3 * time.Duration(ph.ms) * time.Millisecond)
 	t0 := time.Now()
 	var wg sync.WaitGroup
 	for _, j := range jobs {
